@@ -277,3 +277,110 @@ def conclude(res):
     if res.violations: return 1
     if res.errors: return 3
     return 0
+
+# ---------------------------------------------------------------------------
+# TRUNC pipeline
+def _trunc_job(args):
+    fn, ename, pidx, opts = args
+    from . import trunc
+    try:
+        if fn not in _DAGCACHE:
+            _DAGCACHE.clear(); _DAGCACHE[fn] = {e.name: e for e in dagm.load(fn)}
+        e = _DAGCACHE[fn][ename]; p = e.paths[pidx]
+        keep = opts.get('ap_prefixes')
+        if keep is not None:
+            p.approx = [a for a in p.approx if a[0].startswith(tuple(keep))]
+        q0 = smt.STATS.queries; t0 = smt.STATS.time; p0 = smt.STATS.procs
+        r = trunc.trunc_path(e, p, opts)
+        bad = [k for k, v in r['claims'].items() if v in ('undecided', 'bound-refuted', 'differs-on-generic-path')]
+        if bad:
+            found, npc = trunc.numeric_check(e, p, bad, n=opts.get('trunc_samples', 42), seed=opts.get('seed', 0))
+            r['numeric'] = {k: {'inputs': {e.nodes[i].name: float(v) for i, v in f[0].items()}, 'inputs_hex': {e.nodes[i].name: float(v).hex() for i, v in f[0].items()}, 'taylor': f[1], 'generic': f[2], 'tol': f[3]} for k, f in found.items()}
+            r['numeric_points'] = npc
+        st = {'queries': smt.STATS.queries - q0, 'time': smt.STATS.time - t0, 'procs': smt.STATS.procs - p0}
+        return (fn, ename, pidx, r, st, None)
+    except Exception:
+        return (fn, ename, pidx, None, {'queries': 0, 'time': 0, 'procs': 0}, traceback.format_exc())
+
+def run_trunc(res, specs, opts):
+    """specs: list of dict(src, defs, filter, ap_prefixes). TRUNC obligations are added to res."""
+    rundir = os.path.join(build.WORK, 'run', res.pid); os.makedirs(rundir, exist_ok=True)
+    targets = [(s['src'], s['defs'], 'sym') for s in specs] + [(s['src'], s['defs'], 'double') for s in specs]
+    built = build.build_all(targets)
+    known = load_known(res.pid)
+    jobs = []; meta = {}
+    for k, s in enumerate(specs):
+        b, err, secs = built[k]
+        if b is None:
+            res.errors.append({'what': 'harness does not compile', 'spec': s['src'] + ':' + ','.join(s['defs']), 'diag': err[-3000:]}); continue
+        fn = os.path.join(rundir, os.path.basename(b) + '.dag')
+        rc, out = build.run_harness(b, fn, [s.get('filter', '.*')])
+        if rc != 0:
+            res.errors.append({'what': 'harness run failed', 'spec': s['src'], 'diag': out[-2000:]}); continue
+        meta[fn] = (s, built[len(specs) + k][0])
+        o2 = dict(opts, ap_prefixes=s.get('ap_prefixes'))
+        for e in dagm.load(fn):
+            for p in e.paths: jobs.append((fn, e.name, p.idx, o2))
+    stats = {'taylor_paths': 0, 'bound_queries': 0, 'bound_ok': 0, 'identical': 0, 'bounded': 0, 'zero_case': 0, 'numeric_only': 0}
+    with ProcessPoolExecutor(opts.get('procs', 8)) as ex:
+        for fn, ename, pidx, r, st, err in ex.map(_trunc_job, jobs):
+            res.solver['queries'] += st['queries']; res.solver['time'] += st['time']; res.solver['procs'] += st['procs']
+            if err:
+                res.errors.append({'what': 'trunc exception', 'entry': ename, 'path': pidx, 'diag': err[-3000:]}); continue
+            res.paths += 1; res.functions.add(ename)
+            if r.get('cf_error'):
+                res.undecided.append('%s path %d: %s' % (ename, pidx, r['cf_error'])); res.obligations += 1; continue
+            res.obligations += r.get('lemmas', 0) + 1; res.discharged += r.get('lemmas_ok', 0) + (1 if r.get('feasible') is not None else 0)
+            res.lemmas += r.get('lemmas', 0)
+            if r.get('lemmas', 0) != r.get('lemmas_ok', 0): res.undecided.append('%s path %d: step lemmas not discharged' % (ename, pidx))
+            if r.get('feasible') is False:
+                res.infeasible += 1; continue
+            res.obligations += r.get('side', 0); res.discharged += r.get('side_ok', 0)
+            if r.get('side', 0) != r.get('side_ok', 0): res.undecided.append('%s path %d: side obligations %s' % (ename, pidx, r.get('side_fail')))
+            if r.get('queries'): stats['taylor_paths'] += 1
+            stats['bound_queries'] += r.get('queries', 0); stats['bound_ok'] += r.get('queries_ok', 0)
+            for nm, stt in r['claims'].items():
+                key = '%s:p%d:%s' % (ename, pidx, nm)
+                if stt == 'zero-case': stats['zero_case'] += 1; continue
+                res.claims += 1; res.obligations += 1
+                if stt == 'proved-identical': res.discharged += 1; stats['identical'] += 1
+                elif stt == 'proved-bound':
+                    res.discharged += 1; stats['bounded'] += 1
+                    if len(res.samples) < 8: res.samples.append({'entry': ename, 'path': pidx, 'claim': nm, 'status': stt, 'monomial_bounds': (r.get('monomials') or {}).get(nm)})
+                else:
+                    num = (r.get('numeric') or {}).get(nm)
+                    if num is None:
+                        stats['numeric_only'] += 1
+                        res.undecided.append('%s: TRUNC bound %s; |taylor-generic| within tolerance at %d region points (not a solver verdict)' % (key, stt, r.get('numeric_points', 0)))
+                        continue
+                    s, dbin = meta[fn]
+                    rep = replay_trunc(res, ename, nm, num, dbin)
+                    if not rep or not rep.get('reproduced'):
+                        res.undecided.append('%s: TRUNC candidate did not reproduce on the double build' % key); continue
+                    kf = match_known(known, key)
+                    if kf: res.known.append((key, kf.get('what', ''))); continue
+                    d = os.path.join(VERIF, 'replay', res.pid); os.makedirs(d, exist_ok=True)
+                    rfn = os.path.join(d, key.replace(':', '__').replace('(', '_').replace(')', '').replace(',', '_') + '.json')
+                    json.dump({'property': res.pid, 'key': key, 'entry': ename, 'claim': nm, 'mode': 'TRUNC', 'inputs': num['inputs'], 'taylor_branch_value': num['taylor'], 'generic_formula_value_60digits': num['generic'], 'tolerance': num['tol'], 'replay': rep}, open(rfn, 'w'), indent=1)
+                    res.violations.append((key, rfn))
+    res.extra.setdefault('trunc', {})
+    for k, v in stats.items(): res.extra['trunc'][k] = res.extra['trunc'].get(k, 0) + v
+    res.axioms.add('alternating-series enclosures of sin/cos (4 terms) and atan (2 terms) on |arg|<=1')
+    return stats
+
+def replay_trunc(res, ename, nm, num, dbin):
+    if not dbin: return None
+    rundir = os.path.join(build.WORK, 'run', res.pid)
+    inp = os.path.join(rundir, 'replay_input_tr.txt')
+    with open(inp, 'w') as f:
+        for k, v in num['inputs_hex'].items(): f.write('%s:%s %s\n' % (ename, k, v))
+    out = os.path.join(rundir, 'replay_out_tr.txt')
+    rc, txt = build.run_harness(dbin, out, [re_escape(ename), '--input', inp])
+    if rc != 0: return {'reproduced': False, 'error': txt[-300:]}
+    for ce in dagm.load(out):
+        if ce.name != ename or not ce.paths: continue
+        cv = ce.paths[0].cvals.get(nm)
+        if cv is None: return {'reproduced': False}
+        lv = cv[0]
+        return {'reproduced': bool(abs(lv - num['generic']) > num['tol']), 'double_taylor_value': lv, 'reference': num['generic'], 'binary': dbin}
+    return None
